@@ -60,8 +60,9 @@ CS_quick == << <<Txt("w1")>>, <<Inl("em", <<Txt("w2")>>)>>, <<Txt("w3"), Inl("co
                <<Inl("link", <<Txt("w2")>>)>>, <<Txt("x1")>>, <<Inl("st", <<Txt("w3")>>), Txt("w1")>> >>
 CS_full  == CS_quick \o << <<>>, <<Txt("u1")>>, <<Inl("del", <<Txt("w1")>>)>>, <<Inl("em", <<Inl("st", <<Txt("w2")>>)>>)>> >>
 TS_one   == {<<2, 1, <<"l", "r">>, 0>>}
-TS_quick == {<<1, 1, <<"n">>, 0>>, <<2, 1, <<"l", "r">>, 1>>, <<2, 2, <<"c", "n">>, 3>>, <<3, 1, <<"n", "c", "r">>, 2>>}
-TS_full  == TS_quick \cup {<<1, 2, <<"c">>, 5>>, <<2, 1, <<"n", "n">>, 6>>, <<3, 2, <<"r", "l", "c">>, 4>>, <<2, 2, <<"l", "l">>, 8>>}
+TS_quick == {<<1, 1, <<"n">>, 0>>, <<2, 1, <<"l", "r">>, 1>>, <<2, 2, <<"c", "n">>, 3>>, <<3, 1, <<"n", "c", "r">>, 2>>,
+             <<2, 0, <<"c", "l">>, 0>>}          \* a table may consist of its header only
+TS_full  == TS_quick \cup {<<1, 2, <<"c">>, 5>>, <<2, 1, <<"n", "n">>, 6>>, <<3, 2, <<"r", "l", "c">>, 4>>, <<2, 2, <<"l", "l">>, 8>>, <<1, 0, <<"r">>, 1>>}
 MS_all   == {<<"w1">>, <<"w1", "w2">>}
 
 \* ======================================================================== fidelity
